@@ -8,6 +8,7 @@ Line-protocol driver for the signals group (C16, C17, C18-signals).  One output 
       (clear_all_subscriptions), N: name or *, T: type or *; only calls that are accepted are admitted
       observe N T h | unobserve N T h | clear N | drop h         (N: name or *, T: type or *)
       set n v | lassign n vs | lset n i v | lsetslice n a b vs | ldel n i | ldelslice n a b
+      lsetslicex n A B C vs | ldelslicex n A B C      (`slice(A, B, C)`, each an int or N = None)
       linsert n i v | lappend n v | lpop n i | lremove n v | lextend n vs | liadd n vs | lreverse n | lclear n
       subs | get n                               (vs: comma separated ints, `-` = empty)
   scenario comp owner.name.kind,… h:c.c,…       C17 machine; kind ∈ obs|comp; handler programs (`-` = none)
@@ -48,8 +49,15 @@ def fmtInts (l : List Int) : String := "[" ++ ",".intercalate (l.map toString) +
 def fmtVal : Val → String
   | .none => "N" | .int i => toString i | .list l => fmtInts l
 
+def fmtOI : Option Int → String
+  | none => "N" | some i => toString i
+
+def parseOI (s : String) : Option (Option Int) := if s = "N" then some none else s.toInt?.map some
+
 def fmtIdx : Idx → String
   | .none => "N" | .int i => toString i | .slice a b => s!"{a}..{b}"
+  | .sliceX ⟨some a, some b, none⟩ => s!"{a}..{b}"
+  | .sliceX ⟨a, b, c⟩ => s!"{fmtOI a}..{fmtOI b}..{fmtOI c}"
 
 def fmtDeliv (d : Nat × Sig) : String :=
   s!"{d.1}:{d.2.name}:{fmtType d.2.type}:{fmtVal d.2.old}:{fmtVal d.2.new}:{fmtIdx d.2.index}"
@@ -83,6 +91,8 @@ def parseSigOp (s : St) : List String → Option Op
       | "lsetslice", [a, b, vs] => pure (.lsetSlice n (← a.toInt?) (← b.toInt?) (← parseInts vs))
       | "ldel", [i] => pure (.ldel n (← i.toInt?))
       | "ldelslice", [a, b] => pure (.ldelSlice n (← a.toInt?) (← b.toInt?))
+      | "lsetslicex", [a, b, c, vs] => pure (.lsetSliceX n ⟨← parseOI a, ← parseOI b, ← parseOI c⟩ (← parseInts vs))
+      | "ldelslicex", [a, b, c] => pure (.ldelSliceX n ⟨← parseOI a, ← parseOI b, ← parseOI c⟩)
       | "linsert", [i, v] => pure (.linsert n (← i.toInt?) (← v.toInt?))
       | "lappend", [v] => pure (.lappend n (← v.toInt?))
       | "lpop", [i] => pure (.lpop n (← i.toInt?))
